@@ -119,6 +119,12 @@ def corpus(tier, seed):
     for text, ts in base:
         for a in ('left', 'right'):
             out.append(g('@%s %s;\n' % (a, ' '.join('"%s"' % t for t in ts)) + text, 'lalr', directives=True, family='unambiguous LALR(1) grammar with directives'))
+    # dangling else settled by directives in favour of the shift ("else" above "if", or both on one right-associative
+    # level): the else goes to the nearest if and no sentence is lost, so the table must accept exactly L(G).
+    # The "else" level names no terminal that begins a production (seed C06_5 demoted such levels).
+    for lines in ('@right "e";\n@right "i";', '@left "e";\n@left "i";', '@right "e";\n@left "i";', '@right "e" "i";', '@right "i" "e";'):
+        for body in ('start = "i" start | "i" start "e" start | "x";\n', 'start = s;\ns = "i" s | "i" s "e" s | "x" | "(" s ")";\n'):
+            out.append(g(lines + '\n' + body, 'lalr', directives=True, family='dangling else settled by directives'))
     # partially declared: one operator left without directive -> unresolved conflict expected
     out.append({'text': 'grammar g;\n' + op_grammar(['+', '*'], [('left', ['*'])]), 'class': 'ambiguous', 'ops': None, 'family': 'operator grammar with a missing directive', 'directives': True})
     rnd = random.Random(seed)
